@@ -1,5 +1,5 @@
 SPECIFICATION Spec
-CONSTANT Inputs <- C05Quick
+CONSTANT InputSeq <- SeqFromFile
 CONSTANT Hosts <- HostsFull
 INVARIANT DetOrKnown
 INVARIANT Partition
